@@ -534,6 +534,12 @@ func c01Main(r *engine.Run) {
 			r.Bound(fmt.Sprintf("chained: every non-empty result of the 5 set operations on pairs of a %d-operand alphabet fed back against every operand of it (%d intermediate results; joint arrangements below the clearance threshold dropped)", len(chainA), fed))
 		}
 	}
+	{
+		cp := ConcurrentPairs(level)
+		if r.Parallel(len(cp), func(k int) { c01Pair(r, cp[k][0], cp[k][1]) }) {
+			r.Bound(fmt.Sprintf("concurrent family: %d pairs with three edge interiors through one non-vertex lattice point (directions × extents with non-dyadic crossing parameters a/(a+b), a+b ∈ {3,7,11,25} × centres) × 8 operations", len(cp)))
+		}
+	}
 	if r.Thorough() {
 		// 4×4 lattice: a fixed stride of all pairs of the ≤4-vertex polygons, segments and paths
 		l4 := Lattice4(universe.Identity)
